@@ -53,6 +53,9 @@ func checkC14(P *Prog, r *Result) {
 		"Equality of destination and issues across renderings of one record is value-level and not decided."
 	P.checkGetByFieldAgreement(r, "C14/getbyfield-agreement")
 	P.checkProviderFromCheckedValue(r, "C14/provider-from-checked-value")
+	// a list sent as `tags[]=` is a list in every front end: a single blank value is a one-element list as it is in JSON
+	// and in a Go map, not a scalar that reads as absent (C15's rule)
+	shareRule(P, r, checkC15, "C15/list-key-always-list", nil, "C14/list-presentation-agrees", 1)
 	r.floor("C14/getbyfield-agreement", 3)
 	// the key of a field depends only on (field, schema key, the provider's own tag): the canonical return table
 	P.checkTagPriority(r, "C14/key-resolution")
@@ -395,6 +398,11 @@ func checkC15(P *Prog, r *Result) {
 	// ---- empty-object: provider never a nil interface ----
 	P.checkProviderNonNil(r, "C15/empty-object")
 	P.checkSourceOpenWhileRead(r)
+	// "exactly one top-level issue": the issue of an undecodable request is reported on a context whose catch flag is
+	// clean - a recycled context that still carries CanCatch swallows it and Parse returns nil (C01's rule)
+	shareRule(P, r, checkC01, "C01/child-clean", func(o Obligation) bool {
+		return strings.Contains(o.Construct, "StructSchema") || strings.Contains(o.Construct, "PointerSchema")
+	}, "C15/issue-not-swallowed", 4)
 	// a request factory decides from the request alone: it keeps nothing between calls (a memoised result makes the
 	// second schema that is handed the same factory see an empty record instead of the decode failure) - C08's
 	// write-effects rule on the front-end packages
